@@ -216,7 +216,9 @@ def run(ctx):
                        "time/duration/size field of mvhd tkhd mdhd mehd tfdt sidx elst emsg prft, version toggles): the aggregate "
                        "history, the output re-decoded, and the per-node oracle on a second, equal copy; every aggregate history "
                        "also EncodeSW into writers of Size()+1, Size()+64 and 2*Size() bytes (success must mean exactly Size() "
-                       "bytes, the same ones); progressive files (decoded testdata box by box, built ftyp/moov/mdat orders with "
+                       "bytes, the same ones) and Encode into io.Writers that fail after k < Size() bytes (k at every box start, behind "
+                       "every header, inside and at the end of every payload; failing for good or recovering): Encode must "
+                       "not report success; progressive files (decoded testdata box by box, built ftyp/moov/mdat orders with "
                        "Data / DataParts / LargeSize): mdat payload positions from Size()/HeaderSize() = positions in the output, "
                        "moov written as it is; senc boxes decoded from generated bytes (both decoders) and parsed: per-node oracle; "
                        "HdlrBox with handler types of 0..8 characters; "
